@@ -6,7 +6,7 @@ CONSTANTS
   QTypes <- QTypesAll
   Vals = {1, 2}
   ValsOf <- MCValsOf
-  OpFamilies = {"W", "U", "M"}
+  OpFamilies = {"W", "U", "M", "B"}
   Writers = {"w1"}
   Readers = {}
   MaxVer = 3
